@@ -237,8 +237,13 @@ var _ sasl.Client = plainSASL{}
 
 var c10HookOnce sync.Once
 
-func evalC10Client(c C10ClientCase) *h.Finding {
+func evalC10Client(c C10ClientCase) (f *h.Finding) {
 	desc := fmt.Sprintf("%+v", c)
+	defer func() {
+		if p := recover(); p != nil {
+			f = h.F("c10-client-panic", "%s: the client panicked: %v", desc, p)
+		}
+	}()
 	c10HookOnce.Do(func() {
 		smtp.VerifSetStartTLSHook(func(cfg *tls.Config) {
 			if cfg.RootCAs == nil {
